@@ -26,6 +26,9 @@ def main():
     elif a.cmd == 'setup':
         from checks import selftest
         os._exit(selftest.setup())
+    elif a.cmd == 'probe':
+        import subprocess
+        os._exit(subprocess.call([sys.executable, os.path.join(os.path.dirname(os.path.abspath(__file__)), 'tools', 'stdprobe.py')] + ([a.arg] if a.arg else [])))
     elif a.cmd == 'selftest':
         from checks import selftest
         os._exit(selftest.run(a.arg or ''))
